@@ -137,7 +137,7 @@ def expand_c10(cfg):
     import random
     rnd = random.Random(cfg['chord'] * 1000 + cfg['camber'] * 10 + cfg['nside'])
     n = len(sec['pts'])
-    rec = {'m': 'airfoil', 'op': 'analyze', 'wd': 120000, 'closed': not cfg['open'], 'tolq': 100, 'cfg': cfg,
+    rec = {'m': 'airfoil', 'op': 'analyze', 'wd': 120000, 'closed': not cfg['open'], 'tolq': cfg.get('tolq', 100), 'cfg': cfg,
            # requested forward direction for DirectionFwd: along the chord, or 79 degrees off it to either side (still pointing
            # towards the leading edge, but closer to the initial heading of a cambered camber line than to the chord)
            'orient': {'kind': 'dir' if cfg['open'] else cfg['orient'], 'd': ([-1, 0], [-1, 5], [-1, -5])[cfg.get('od', 0)]}, 'le': {'kind': cfg['le']}, 'te': {'kind': cfg['te']},
@@ -147,6 +147,9 @@ def expand_c10(cfg):
                         {'T': IDENT, 'rev': True, 'shift': 0},
                         {'T': IDENT, 'rev': False, 'shift': (n // 3) if not cfg['open'] else 0},
                         {'T': IDENT, 'rev': False, 'shift': (n - 5) if not cfg['open'] else 0}]}
+    if cfg.get('farpose'):
+        # the moved variant is carried 5e5 chords from the origin instead of a few tens
+        rec['variants'][1]['T'] = dict(rec['variants'][1]['T'], t=[int(400000 * chord * 10), int(-300000 * chord * 10), 0])
     # an edge point may sit on an arc fitted to the section within the analysis tolerance, and the section itself is a polygon
     # inscribed in the generating envelope: allowance = analysis tolerance + the largest sagitta of the two end caps + 20
     m_te = max(6, int(cfg['nside'] * 0.08)); m_le = max(8, int(cfg['nside'] * 0.12))
